@@ -302,6 +302,22 @@ pub fn func(args: &[&str], body: Vec<X>) -> X {
         inline: false,
     })))
 }
+pub fn func_inline(args: &[&str], body: X) -> X {
+    x(E::Func(Rc::new(FuncDef {
+        args: args
+            .iter()
+            .map(|a| ArgDef {
+                pat: Pat::Id((*a).into(), None),
+                default: None,
+            })
+            .collect(),
+        variadic: false,
+        body: blk(vec![body]),
+        is_gen: false,
+        out_hint: None,
+        inline: true,
+    })))
+}
 pub fn if_(c: X, t: Vec<X>, e: Option<Vec<X>>) -> X {
     x(E::If(vec![(c, blk(t))], e.map(blk)))
 }
@@ -774,8 +790,10 @@ impl Renderer {
                 )
             }
             E::Pipe(a, f) => (
-                format!("{} -> {}", self.expr(a, 1, level), self.stmt_callfree(f, level)),
-                0,
+                // only generated as an assignment right-hand side / statement (inside parentheses
+                // `a -> f b, c` would read as a tuple)
+                format!("{} -> {}", self.expr(a, 2, level), self.stmt_callfree(f, level)),
+                1,
             ),
             E::If(arms, els) if !e.is_blocky() => {
                 let (c, b) = &arms[0];
